@@ -5,6 +5,7 @@
  *                    u32 eflags; u8 hot[HOT]; [if flags&1: u8 mm[8][8]; u8 xmm[8][16]] }
  *         flags&8: x87 mode - after hot[]: u8 st[8][10] (ST0..ST7, 80-bit), u8 ftw (abridged tags, physical; TOP is 0);
  *                  the reply then ends with u8 st[8][10] (stack order), u16 swd, u8 ftw
+ *         flags&16: the step runs in the tracee's 16-bit code segment (LDT selector 7, base 0): status 0xfffc if the host refuses it
  *         flags&2: the hot bytes live at LOW_ADDR+HOT_OFF (reachable with 16-bit addressing) instead of DATA_ADDR+HOT_OFF
  * stdout: records  { u32 status (0 = stepped, else signal number, 0xffff = tracer failure);
  *                    u32 regs[8]; u32 eip; u32 eflags; u32 cs; u8 hot[HOT]; [if flags&1: mm, xmm] }
@@ -89,7 +90,8 @@ int main(int argc, char **argv) {
         r.rip = CODE_ADDR;
         r.eflags = (eflags & 0x00240ed5) | 0x202;       /* CF PF AF ZF SF DF OF (and AC, ID for the pushf/popf probes) from the case; IF set; TF clear */
         r.orig_rax = -1;
-        if (status == 0 && ptrace(PTRACE_SETREGS, child, 0, &r) < 0) status = 0xffff;
+        if (flags & 16) r.cs = 7;
+        if (status == 0 && ptrace(PTRACE_SETREGS, child, 0, &r) < 0) status = (flags & 16) ? 0xfffc : 0xffff;
         if (status == 0 && (flags & 1)) {
             fp = fpbase;
             for (int i = 0; i < 8; i++) {
